@@ -6,6 +6,8 @@ import Amgcl.Proofs.RelaxIlu
 import Amgcl.Proofs.RelaxCheck
 import Amgcl.Proofs.RelaxIlu0
 import Amgcl.Model.RelaxIluk
+import Amgcl.Proofs.RelaxIlukLoop
+import Amgcl.Proofs.RelaxIlukLevels
 import Mathlib.Algebra.Field.Rat
 import Mathlib.Algebra.Order.Ring.Rat
 /-!
@@ -533,10 +535,25 @@ discarded) and `ilup.hpp` (ILU(0) of `A` padded to the pattern of `A^(k+1)`).  T
 everything the cycle needs holds for them too.
 
 **Not a theorem — the clause "`(LU)_ij = a_ij` on the level-of-fill `≤ k` pattern" is FALSE for `iluk.hpp` as
-written** (`iluk_not_on_pattern_counterexample` below, known finding `C06-iluk-dropped-contributions`).  What holds
-for ILU(k) is decided per explored input by the checker `luOnPatternb` (sound by `lu_on_pattern_sound`), and the
-harness separates the known defect from any other deviation.  Open: a general theorem "if no contribution is
-discarded (in particular `k ≥ n`) then the identity holds on the admitted pattern" is not proved. -/
+written** (`iluk_not_on_pattern_counterexample` below, known finding `C06-iluk-dropped-contributions`).
+
+**What is a theorem** (for every field, every size, every fill parameter, unsorted rows and duplicate entries
+included): with `R` the matrix of the contributions that `sparse_vector::add` discarded during the run — recorded by
+the traced run `ilukFactorT` of `Model/RelaxIlukTrace.lean`, whose first component *is* `ilukFactor`
+(`iluk_trace_faithful`) —
+
+    `(I+L)(D⁻¹+U) + R = A`     at every position          (`iluk_residual_identity`).
+
+Consequences: a position at which nothing was discarded satisfies `(LU)_ij = a_ij` (`iluk_entry_of_not_discarded`);
+if no discarded contribution went to a position that has a slot at the end of its row — the decidable run predicate
+`ilukNoLateSlotb`, exactly the negation of the K01 situation — the identity holds on the whole final pattern
+(`iluk_on_pattern_of_no_late_discard`), which is the a-priori level-of-fill pattern `patLevel A k` of the checker
+(`iluk_slots_are_level_pattern`, `iluk_on_level_pattern`, `iluk_factors_in_level_pattern`); if nothing was discarded at all (`ilukNoDiscardb`) ILU(k) is the complete
+factorisation `(I+L)(D⁻¹+U) = A` (`iluk_exact_of_no_discard`) and `apply` is the exact inverse
+(`iluk_exact_inverse`); rows `i ≤ k` never discard anything (`iluk_rows_le_fill_complete`: levels in row `i` are
+`≤ i`), so `n ≤ k + 1` — in particular `k ≥ n` — implies `ilukNoDiscardb` (`iluk_no_discard_of_large_fill`,
+`iluk_complete_of_large_fill`).  `iluk.hpp` has no pivot check (`D[i] = inverse(val)`, total division): the only
+hypothesis besides well-formedness is that the stored pivots needed are non-zero. -/
 section iluk
 variable {K : Type} [Field K] [DecidableEq K]
 
@@ -550,6 +567,217 @@ theorem iluk_fixed_point (k : Nat) (ω : K) (A : CRS K) (F : IluFactors K) (f x 
     ((iluk k ω).applyPre F A f x t).1 = x ∧ ((iluk k ω).applyPost F A f x t).1 = x :=
   ⟨(iluk_affine_scratch_indep k ω F A).pre_fixed f x t hx hf h,
    (iluk_affine_scratch_indep k ω F A).post_fixed f x t hx hf h⟩
+
+/-- the traced constructor (`Model/RelaxIlukTrace.lean`) computes the factors of the constructor: its first component
+is `ilukFactor`, outcome by outcome; the second component only records what `add` discarded -/
+theorem iluk_trace_faithful (k : Nat) (ω : K) (A : CRS K) :
+    (iluk k ω).setup A
+      = match ilukFactorT k A with
+        | .ok FR => .ok FR.1
+        | .precondition => .precondition
+        | .undefinedInput => .undefinedInput :=
+  ilukFactorT_fst k A
+
+/-- hence a successful constructor has a (unique) record of discarded contributions, and vice versa -/
+theorem iluk_trace_exists (k : Nat) (ω : K) (A : CRS K) (F : IluFactors K) :
+    (iluk k ω).setup A = .ok F ↔ ∃ R, ilukFactorT k A = .ok (F, R) :=
+  ⟨ilukFactorT_of_factor k A F, fun ⟨R, h⟩ => ilukFactor_of_factorT k A F R h⟩
+
+/-- a successful ILU(k) constructor returns strictly triangular, well-formed factors of the right size (the
+hypotheses of `ilu_solve_serial_spec`); the matrix of discarded contributions has the size of `A` -/
+theorem iluk_factors_wf (k : Nat) (A : CRS K) (hA : A.WF) (hsq : A.ncols = A.nrows) (F : IluFactors K) (R : CRS K)
+    (hF : ilukFactorT k A = .ok (F, R)) :
+    strictLowerb F.L = true ∧ strictUpperb F.U = true ∧ F.L.WF ∧ F.U.WF ∧ F.L.nrows = A.nrows ∧ F.L.ncols = A.nrows
+    ∧ F.U.nrows = A.nrows ∧ F.U.ncols = A.nrows ∧ F.D.size = A.nrows ∧ R.nrows = A.nrows ∧ R.ncols = A.nrows :=
+  ilukFactorT_wf k A hA hsq F R hF
+
+/-- **`iluk_residual_identity`.**  For every field, every size, every fill parameter `k` and every well-formed square
+matrix (rows need not be sorted, duplicates add) on which the constructor succeeds: the factors and the matrix `R` of
+discarded contributions satisfy `((I+L)(D⁻¹+U))_ij + R_ij = a_ij` at **every** position.  On and right of the diagonal
+there is no further hypothesis; left of the diagonal the stored pivot `D_j` must be non-zero (the code never checks
+it). -/
+theorem iluk_residual_identity (k : Nat) (A : CRS K) (hA : A.WF) (hsq : A.ncols = A.nrows) (F : IluFactors K)
+    (R : CRS K) (hF : ilukFactorT k A = .ok (F, R)) (i j : Nat) (hi : i < A.nrows) (hj : j < A.nrows)
+    (hD : j < i → F.D.getD j 0 ≠ 0) :
+    ∑ k' ∈ range A.nrows, lowEntry F i k' * upEntry F k' j + R.get i j = A.get i j :=
+  ilukFactorT_identity k A hA hsq F R hF i j hi hj hD
+
+/-- a position at which nothing was discarded is reproduced exactly -/
+theorem iluk_entry_of_not_discarded (k : Nat) (A : CRS K) (hA : A.WF) (hsq : A.ncols = A.nrows) (F : IluFactors K)
+    (R : CRS K) (hF : ilukFactorT k A = .ok (F, R)) (i j : Nat) (hi : i < A.nrows) (hj : j < A.nrows)
+    (hD : j < i → F.D.getD j 0 ≠ 0) (hR : ∀ cv ∈ R.row i, cv.1 ≠ j) :
+    ∑ k' ∈ range A.nrows, lowEntry F i k' * upEntry F k' j = A.get i j := by
+  have h := ilukFactorT_identity k A hA hsq F R hF i j hi hj hD
+  have h0 : R.get i j = 0 := Amgcl.rowGet_eq_zero_of_not_mem _ _ hR
+  rw [h0, add_zero] at h
+  exact h
+
+/-- **on-pattern identity when the K01 situation does not occur.**  If every discarded contribution went to a column
+that has no slot at the end of its row (`ilukNoLateSlotb`, decidable on the run), then `((I+L)(D⁻¹+U))_ij = a_ij` on
+the whole final admitted pattern: the diagonal and every stored position of `L` and `U`. -/
+theorem iluk_on_pattern_of_no_late_discard (k : Nat) (ω : K) (A : CRS K) (hA : A.WF) (hsq : A.ncols = A.nrows)
+    (F : IluFactors K) (hF : (iluk k ω).setup A = .ok F) (hnl : ilukNoLateSlotb k A = true)
+    (i j : Nat) (hi : i < A.nrows) (hj : j < A.nrows) (hslot : ilukSlotb F i j = true)
+    (hD : j < i → F.D.getD j 0 ≠ 0) :
+    ∑ k' ∈ range A.nrows, lowEntry F i k' * upEntry F k' j = A.get i j := by
+  obtain ⟨R, hT⟩ := ilukFactorT_of_factor k A F hF
+  apply iluk_entry_of_not_discarded k A hA hsq F R hT i j hi hj hD
+  intro cv hcv heq
+  unfold ilukNoLateSlotb at hnl
+  rw [hT] at hnl
+  simp only [] at hnl
+  rw [List.all_eq_true] at hnl
+  have h1 := hnl i (List.mem_range.mpr hi)
+  rw [List.all_eq_true] at h1
+  have h2 := h1 cv hcv
+  rw [heq, hslot] at h2
+  exact absurd h2 (by decide)
+
+/-- **the pattern the run admits is the a-priori level-of-fill pattern.**  At the end of row `i` of a successful
+constructor a slot exists at column `j` (diagonal, or stored in the `L` / `U` row) iff `patLevel A k i j`, the symbolic
+level-of-fill pattern (`fillLevels`, amgcl's rule `lev = max(lev_ik, lev_kj) + 1 ≤ k`) that the checker
+`luOnPatternb` uses as admitted pattern.  No hypothesis on the matrix. -/
+theorem iluk_slots_are_level_pattern (k : Nat) (ω : K) (A : CRS K) (F : IluFactors K)
+    (hF : (iluk k ω).setup A = .ok F) (i j : Nat) (hi : i < A.nrows) (hj : j < A.nrows) :
+    ilukSlotb F i j = patLevel A k i j :=
+  ilukSlotb_eq_patLevel k A F hF i j hi hj
+
+/-- the factors stay inside the level-of-fill pattern (verdict of the checker `factorsInPatternb`) -/
+theorem iluk_factors_in_level_pattern (k : Nat) (ω : K) (A : CRS K) (hA : A.WF) (hsq : A.ncols = A.nrows)
+    (F : IluFactors K) (hF : (iluk k ω).setup A = .ok F) :
+    factorsInPatternb (patLevel A k) F = true := by
+  obtain ⟨R, hT⟩ := ilukFactorT_of_factor k A F hF
+  obtain ⟨_, _, h3, h4, h5, h6, h7, h8, _, _, _⟩ := ilukFactorT_wf k A hA hsq F R hT
+  unfold factorsInPatternb
+  rw [Bool.and_eq_true, List.all_eq_true, List.all_eq_true]
+  constructor
+  · intro i hi
+    have hi' : i < A.nrows := by rw [← h5]; exact List.mem_range.mp hi
+    unfold rowInPatternb
+    rw [List.all_eq_true]
+    intro cv hcv
+    have hc : cv.1 < A.nrows := by rw [← h6]; exact K2.row_col_lt h3 i hcv
+    rw [← ilukSlotb_eq_patLevel k A F hF i cv.1 hi' hc]
+    have : (F.L.row i).any (fun e => e.1 == cv.1) = true := List.any_eq_true.mpr ⟨cv, hcv, by simp⟩
+    unfold ilukSlotb
+    rw [this]; simp
+  · intro i hi
+    have hi' : i < A.nrows := by rw [← h7]; exact List.mem_range.mp hi
+    unfold rowInPatternb
+    rw [List.all_eq_true]
+    intro cv hcv
+    have hc : cv.1 < A.nrows := by rw [← h8]; exact K2.row_col_lt h4 i hcv
+    rw [← ilukSlotb_eq_patLevel k A F hF i cv.1 hi' hc]
+    have : (F.U.row i).any (fun e => e.1 == cv.1) = true := List.any_eq_true.mpr ⟨cv, hcv, by simp⟩
+    unfold ilukSlotb
+    rw [this]; simp
+
+/-- **`iluk_on_level_pattern`: the ILU(k) clause of the property, with its exact side condition.**  If no discarded
+contribution went to a finally admitted position (`ilukNoLateSlotb`; the negation of finding K01) and the stored
+pivots are non-zero, then `((I+L)(D⁻¹+U))_ij = a_ij` on the level-of-fill `≤ k` pattern — the checker `luOnPatternb
+(patLevel A k)` answers `true`. -/
+theorem iluk_on_level_pattern (k : Nat) (ω : K) (A : CRS K) (hA : A.WF) (hsq : A.ncols = A.nrows)
+    (F : IluFactors K) (hF : (iluk k ω).setup A = .ok F) (hnl : ilukNoLateSlotb k A = true)
+    (hD : ∀ i, i < A.nrows → F.D.getD i 0 ≠ 0) :
+    (∀ i j, i < A.nrows → j < A.nrows → patLevel A k i j = true →
+        ∑ k' ∈ range A.nrows, lowEntry F i k' * upEntry F k' j = A.get i j)
+    ∧ luOnPatternb (patLevel A k) A F = true := by
+  have hmain : ∀ i j, i < A.nrows → j < A.nrows → patLevel A k i j = true →
+      ∑ k' ∈ range A.nrows, lowEntry F i k' * upEntry F k' j = A.get i j := by
+    intro i j hi hj hp
+    rw [← ilukSlotb_eq_patLevel k A F hF i j hi hj] at hp
+    exact iluk_on_pattern_of_no_late_discard k ω A hA hsq F hF hnl i j hi hj hp (fun hji => hD j (by omega))
+  refine ⟨hmain, ?_⟩
+  unfold luOnPatternb
+  rw [List.all_eq_true]; intro i hi
+  rw [List.all_eq_true]; intro j hj
+  cases hp : patLevel A k i j with
+  | false => rfl
+  | true =>
+    simp only [Bool.not_true, Bool.false_or, decide_eq_true_eq]
+    rw [luEntry_eq_sum]
+    exact hmain i j (List.mem_range.mp hi) (List.mem_range.mp hj) hp
+
+/-- **complete LU when nothing is discarded.**  `ilukNoDiscardb k A` (no call of `add` took the discarding branch)
+⟹ `(I+L)(D⁻¹+U) = A` at every position. -/
+theorem iluk_exact_of_no_discard (k : Nat) (ω : K) (A : CRS K) (hA : A.WF) (hsq : A.ncols = A.nrows)
+    (F : IluFactors K) (hF : (iluk k ω).setup A = .ok F) (hnd : ilukNoDiscardb k A = true)
+    (i j : Nat) (hi : i < A.nrows) (hj : j < A.nrows) (hD : j < i → F.D.getD j 0 ≠ 0) :
+    ∑ k' ∈ range A.nrows, lowEntry F i k' * upEntry F k' j = A.get i j := by
+  obtain ⟨R, hT⟩ := ilukFactorT_of_factor k A F hF
+  apply iluk_entry_of_not_discarded k A hA hsq F R hT i j hi hj hD
+  intro cv hcv
+  unfold ilukNoDiscardb at hnd
+  rw [hT] at hnd
+  simp only [] at hnd
+  rw [Array.all_eq_true] at hnd
+  have hRn : R.nrows = A.nrows := (ilukFactorT_wf k A hA hsq F R hT).2.2.2.2.2.2.2.2.2.1
+  have hi' : i < R.rows.size := by rw [← hRn] at hi; exact hi
+  have h1 := hnd i hi'
+  have hrow : R.row i = R.rows[i] := by unfold CRS.row Array.getD; rw [dif_pos hi']; rfl
+  rw [hrow] at hcv
+  rw [List.isEmpty_iff] at h1
+  rw [h1] at hcv
+  cases hcv
+
+/-- … and then `apply` is the exact inverse: `A · apply(f) = f` (all stored pivots non-zero) -/
+theorem iluk_exact_inverse (k : Nat) (ω : K) (A : CRS K) (hA : A.WF) (hsq : A.ncols = A.nrows)
+    (F : IluFactors K) (hF : (iluk k ω).setup A = .ok F) (hnd : ilukNoDiscardb k A = true)
+    (hD : ∀ i, i < A.nrows → F.D.getD i 0 ≠ 0) (f : Vec K) (hf : f.size = A.nrows) (i : Nat) (hi : i < A.nrows) :
+    ∑ j ∈ range A.nrows, A.get i j * ((iluk k ω).apply F A f).getD j 0 = f.getD i 0 := by
+  obtain ⟨R, hT⟩ := ilukFactorT_of_factor k A F hF
+  obtain ⟨h1, h2, h3, h4, h5, h6, h7, h8, _, _, _⟩ := ilukFactorT_wf k A hA hsq F R hT
+  have hcopy : vcopy f = f := by
+    apply Vec.ext_getD (0 : K) (by simp [vcopy])
+    intro k hk
+    have hk' : k < f.size := by simpa [vcopy] using hk
+    simp [vcopy]
+  show ∑ j ∈ range A.nrows, A.get i j * (iluSolve F (vcopy f)).getD j 0 = f.getD i 0
+  rw [hcopy]
+  exact exact_factors_invert A F
+    (fun i j hi hj => iluk_exact_of_no_discard k ω A hA hsq F hF hnd i j hi hj (fun hji => hD j (by omega)))
+    h1 h2 h3 h4 h5 h6 h7 h8 hD f hf i hi
+
+/-- rows `i ≤ k` never discard anything (every level that occurs while row `i` is built is `≤ i`), so these rows of
+`(I+L)(D⁻¹+U)` equal the rows of `A` -/
+theorem iluk_rows_le_fill_complete (k : Nat) (A : CRS K) (hA : A.WF) (hsq : A.ncols = A.nrows) (F : IluFactors K)
+    (R : CRS K) (hF : ilukFactorT k A = .ok (F, R)) (i : Nat) (hi : i < A.nrows) (hik : i ≤ k) :
+    R.row i = [] ∧ ∀ j, j < A.nrows → (j < i → F.D.getD j 0 ≠ 0) →
+      ∑ k' ∈ range A.nrows, lowEntry F i k' * upEntry F k' j = A.get i j := by
+  obtain ⟨S, inv, _, _⟩ := ilukFactorT_inv k A hA hsq F R hF
+  have h0 : R.row i = [] := inv.nodrop i hi hik
+  refine ⟨h0, fun j hj hD => ?_⟩
+  apply iluk_entry_of_not_discarded k A hA hsq F R hF i j hi hj hD
+  intro cv hcv; rw [h0] at hcv; cases hcv
+
+/-- **`k ≥ n − 1` (in particular `k ≥ n`) ⟹ nothing is discarded** -/
+theorem iluk_no_discard_of_large_fill (k : Nat) (ω : K) (A : CRS K) (hA : A.WF) (hsq : A.ncols = A.nrows)
+    (hk : A.nrows ≤ k + 1) (F : IluFactors K) (hF : (iluk k ω).setup A = .ok F) :
+    ilukNoDiscardb k A = true := by
+  obtain ⟨R, hT⟩ := ilukFactorT_of_factor k A F hF
+  obtain ⟨S, inv, _, _⟩ := ilukFactorT_inv k A hA hsq F R hT
+  unfold ilukNoDiscardb
+  rw [hT]
+  simp only []
+  rw [Array.all_eq_true]
+  intro i hi
+  have hi' : i < A.nrows := by rw [← inv.sizeR]; exact hi
+  have := inv.nodrop i hi' (by omega)
+  have hrow : R.rows.getD i [] = R.rows[i] := by unfold Array.getD; rw [dif_pos hi]; rfl
+  rw [hrow] at this
+  rw [this]; rfl
+
+/-- **`iluk_complete_of_large_fill`.**  With `k ≥ n − 1` ILU(k) as written is the complete LU factorisation and its
+`apply` the exact inverse of `A`. -/
+theorem iluk_complete_of_large_fill (k : Nat) (ω : K) (A : CRS K) (hA : A.WF) (hsq : A.ncols = A.nrows)
+    (hk : A.nrows ≤ k + 1) (F : IluFactors K) (hF : (iluk k ω).setup A = .ok F)
+    (hD : ∀ i, i < A.nrows → F.D.getD i 0 ≠ 0) :
+    (∀ i j, i < A.nrows → j < A.nrows → ∑ k' ∈ range A.nrows, lowEntry F i k' * upEntry F k' j = A.get i j)
+    ∧ ∀ f : Vec K, f.size = A.nrows → ∀ i, i < A.nrows →
+        ∑ j ∈ range A.nrows, A.get i j * ((iluk k ω).apply F A f).getD j 0 = f.getD i 0 := by
+  have hnd := iluk_no_discard_of_large_fill k ω A hA hsq hk F hF
+  exact ⟨fun i j hi hj => iluk_exact_of_no_discard k ω A hA hsq F hF hnd i j hi hj (fun hji => hD j (by omega)),
+         fun f hf i hi => iluk_exact_inverse k ω A hA hsq F hF hnd hD f hf i hi⟩
 
 end iluk
 
@@ -685,6 +913,58 @@ theorem iluk_level2_example :
     (match ilukFactor 2 exK with
       | .ok F => luOnPatternb (patLevel exK 2) exK F && luExactb exK F
       | _ => false) = true := by decide +kernel
+-- ILU(k): the residual identity on the counterexample — the missing `−1/16` at `(3,4)` is exactly the discarded `1/16`
+/-- what `add` discarded while `iluk.hpp` factorised `exK` with `k = 1`: one contribution, `1/16` at `(3,4)` -/
+def exKR : CRS ℚ := ⟨5, #[[], [], [], [(4, 1/16)], []]⟩
+theorem exK_ilukT : ilukFactorT 1 exK = .ok (exKF, exKR) := by decide +kernel
+example : ilukNoDiscardb 1 exK = false ∧ ilukNoLateSlotb 1 exK = false ∧ ilukNoDiscardb 2 exK = true
+    ∧ ilukNoDiscardb 4 exK = true := by decide +kernel
+theorem exKF_D : ∀ i, i < exK.nrows → exKF.D.getD i 0 ≠ 0 := by decide +kernel
+example := iluk_residual_identity 1 exK (by decide) rfl exKF exKR exK_ilukT 3 4 (by decide) (by decide)
+  (fun h => absurd h (by decide))
+example := iluk_residual_identity 1 exK (by decide) rfl exKF exKR exK_ilukT 3 1 (by decide) (by decide)
+  (fun _ => exKF_D 1 (by decide))
+example := iluk_factors_wf 1 exK (by decide) rfl exKF exKR exK_ilukT
+example := (iluk_trace_exists 1 (1 : ℚ) exK exKF).mpr ⟨exKR, exK_ilukT⟩
+-- position (3,2) of `exK` received no discarded contribution, row 1 ≤ k discards nothing
+example := iluk_entry_of_not_discarded 1 exK (by decide) rfl exKF exKR exK_ilukT 3 2 (by decide) (by decide)
+  (fun _ => exKF_D 2 (by decide)) (by decide)
+example := iluk_rows_le_fill_complete 1 exK (by decide) rfl exKF exKR exK_ilukT 1 (by decide) (by decide)
+/-- a 3×3 arrow matrix pointing to the first row/column (fill at `(1,2)` and `(2,1)`), row 1 stored out of order, the
+diagonal entry of row 2 split into two duplicates -/
+def exFill : CRS ℚ := ⟨3, #[[(0, 4), (1, 1), (2, 1)], [(1, 4), (0, 1)], [(0, 1), (2, 2), (2, 2)]]⟩
+/-- ILU(0) of `exFill` as `iluk.hpp` computes it: both fill contributions are discarded, at positions that never
+get a slot -/
+def exFill0 : IluFactors ℚ := ⟨⟨3, #[[], [(0, 1/4)], [(0, 1/4)]]⟩, ⟨3, #[[(1, 1), (2, 1)], [], []]⟩, #[1/4, 4/15, 4/15]⟩
+/-- ILU(1) = ILU(2) of `exFill`: the complete factorisation -/
+def exFill1 : IluFactors ℚ :=
+  ⟨⟨3, #[[], [(0, 1/4)], [(0, 1/4), (1, -1/15)]]⟩, ⟨3, #[[(1, 1), (2, 1)], [(2, -1/4)], []]⟩, #[1/4, 4/15, 15/56]⟩
+theorem exFill_iluk0 : ilukFactor 0 exFill = .ok exFill0 := by decide +kernel
+theorem exFill_iluk1 : ilukFactor 1 exFill = .ok exFill1 := by decide +kernel
+theorem exFill_iluk2 : ilukFactor 2 exFill = .ok exFill1 := by decide +kernel
+theorem exFill_flags : ilukNoDiscardb 0 exFill = false ∧ ilukNoLateSlotb 0 exFill = true
+    ∧ ilukNoDiscardb 1 exFill = true ∧ ilukSlotb exFill0 2 0 = true ∧ ilukSlotb exFill0 1 2 = false := by
+  decide +kernel
+theorem exFill0_D : ∀ i, i < exFill.nrows → exFill0.D.getD i 0 ≠ 0 := by decide +kernel
+theorem exFill1_D : ∀ i, i < exFill.nrows → exFill1.D.getD i 0 ≠ 0 := by decide +kernel
+-- k = 0: contributions are discarded, but none at a position of the final pattern: the identity holds there
+example := iluk_on_pattern_of_no_late_discard 0 (1 : ℚ) exFill (by decide) rfl exFill0 (by exact exFill_iluk0)
+  exFill_flags.2.1 2 0 (by decide) (by decide) exFill_flags.2.2.2.1 (fun _ => exFill0_D 0 (by decide))
+example := iluk_slots_are_level_pattern 0 (1 : ℚ) exFill exFill0 (by exact exFill_iluk0) 1 2 (by decide) (by decide)
+example : patLevel exFill 0 1 2 = false ∧ patLevel exFill 1 1 2 = true ∧ patLevel exK 1 3 4 = true := by decide +kernel
+example := iluk_on_level_pattern 0 (1 : ℚ) exFill (by decide) rfl exFill0 (by exact exFill_iluk0) exFill_flags.2.1
+  exFill0_D
+example := iluk_factors_in_level_pattern 1 (1 : ℚ) exK (by decide) rfl exKF
+  ((iluk_trace_exists 1 (1 : ℚ) exK exKF).mpr ⟨exKR, exK_ilukT⟩)
+-- k = 1 < n − 1: nothing is discarded (run predicate), complete LU and exact inverse
+example := iluk_exact_of_no_discard 1 (1 : ℚ) exFill (by decide) rfl exFill1 (by exact exFill_iluk1)
+  exFill_flags.2.2.1 2 1 (by decide) (by decide) (fun _ => exFill1_D 1 (by decide))
+example := iluk_exact_inverse 1 (1 : ℚ) exFill (by decide) rfl exFill1 (by exact exFill_iluk1)
+  exFill_flags.2.2.1 exFill1_D #[1, 2, 3] rfl 0 (by decide)
+-- k = 2 = n − 1: nothing can be discarded, whatever the matrix
+example := iluk_no_discard_of_large_fill 2 (1 : ℚ) exFill (by decide) rfl (by decide) exFill1 (by exact exFill_iluk2)
+example := iluk_complete_of_large_fill 2 (1 : ℚ) exFill (by decide) rfl (by decide) exFill1 (by exact exFill_iluk2)
+  exFill1_D
 -- SPAI-1 checker: for a diagonal matrix the exact inverse satisfies the normal equations
 example : leastSquaresRowsb (⟨2, #[[(0, 2)], [(1, -4)]]⟩ : CRS ℚ) ⟨2, #[[(0, 1/2)], [(1, -1/4)]]⟩ = true := by
   decide +kernel
